@@ -184,6 +184,11 @@ def run_scenario(cfg, opts=None):
     des = cfg["design"]
     tap = SearchTap()
     ftap = FlowTap()
+    wm = None
+    if opts.get("monitors"):
+        from vf.instrument import WorkloadMonitors
+
+        wm = WorkloadMonitors()
     sink = io.StringIO()
     mgr = None
     try:
@@ -319,6 +324,12 @@ def run_scenario(cfg, opts=None):
     finally:
         tap.uninstall()
         ftap.uninstall()
+        if wm is not None:
+            try:
+                rec["workload_monitors"] = wm.report()
+            except Exception as e:  # noqa: BLE001
+                rec["workload_monitors"] = {"hits": {}, "violations": {}, "error": f"{type(e).__name__}: {e}"}
+            wm.uninstall()
     rec["wall"] = round(time.time() - t0, 2)
     return json.loads(jdump(rec))
 
